@@ -458,6 +458,10 @@ func init() {
 			}
 			return strings.Join(parts, "; ")
 		},
+		"verifAllocDone": func(fr *frame, a []value) value {
+			fr.i.px.allocBudget = nil
+			return nil
+		},
 		"verifParam": func(fr *frame, a []value) value {
 			if v, ok := fr.i.px.eng.cfg.Params[strArg(a[0])]; ok {
 				return int(v)
